@@ -15,7 +15,12 @@ ShapesBase == <<
   xcom \o <<SP, SP>>, <<97, CR, 98>> \o xcom, <<255>> \o xcom, <<97, 255>> \o xcom, <<97, 1>> \o xcom, <<195, 169>> \o xcom,
   <<97, AT, 208, 191, 208, 190, 209, 135, 209, 130, 208, 176, DOT, 209, 128, 209, 132>>, xcom \o <<CR>>, <<97, 0, 98>> \o xcom,
   <<SP, SP>>, <<97, 195>>, <<195>>, <<97, 98, 255>>, <<DEL>>, <<1, 2, 3, 4, 5, 6, 7, 8, 9, 11, 12, 14, 15, 16>> \o xcom,
-  <<240, 159, 152, 128>> \o xcom, <<SP, HT>>, <<HASH>>, <<0>>, <<97, 255, 255>>, <<195, 169, 255, 97>> >>
+  <<240, 159, 152, 128>> \o xcom, <<SP, HT>>, <<HASH>>, <<0>>, <<97, 255, 255>>, <<195, 169, 255, 97>>,
+  \* ill-formed UTF-8 of every kind inside an otherwise valid address (the tool links its own copy of the decoder)
+  <<97, 237, 176, 128>> \o xcom, <<97, 237, 160, 128>> \o xcom, <<97, 192, 175>> \o xcom, <<97, 224, 128, 128>> \o xcom,
+  <<97, 244, 144, 128, 128>> \o xcom, <<97, 240, 128, 128, 128>> \o xcom, <<97, 128>> \o xcom, <<97, 195, AT, 120, DOT, 99, 111, 109>>,
+  <<97, 237, 159, 191>> \o xcom, <<97, 238, 128, 128>> \o xcom, <<97, 224, 160, 128>> \o xcom, <<97, 244, 143, 191, 191>> \o xcom,
+  <<DQ, 237, 176, 128, DQ>> \o xcom, <<97, AT, 120, DOT, 237, 176, 128>> >>
 RepLong(n) == [i \in 1..(2 * n) |-> IF i % 2 = 1 THEN 195 ELSE 169] \o xcom
 ShapesLong == << Long(2047), Long(2048), Long(2049), Long(8192), Rep(1, 600) \o xcom, Rep(255, 3000), Long(2046) \o <<255>>,
                  RepLong(1500) >>
